@@ -170,7 +170,7 @@ impl Matcher {
 
         if max_score == 0 {
             let char_class = AsciiChar(needle[0]).char_class(&self.config);
-            for i in memmem::find_iter(haystack, needle) {
+            for i in find_overlapping(haystack, needle) {
                 let prev_char_class = i
                     .checked_sub(1)
                     .map(|i| AsciiChar(haystack[i]).char_class(&self.config))
